@@ -2,7 +2,9 @@
 //! vcheck — driver for the dicom-rs property checks.
 //!   vcheck <ID> quick|thorough
 //!   vcheck <ID> --replay <file>
+mod conv;
 mod engine;
+mod gen;
 mod props;
 
 use engine::{Ctx, Tier};
